@@ -197,7 +197,7 @@ func (te *TypeEnv) box(t types.Type, v string) string {
 	}
 	bx, ub := te.boxFuns(t)
 	r := app(bx, v)
-	if !strings.Contains(v, "?") {
+	if !hasBound(v) {
 		key := "inst:" + r
 		if !te.sc.declSet[key] {
 			te.sc.declSet[key] = true
